@@ -61,6 +61,13 @@ REGISTRY: Dict[str, List[Tuple[Frag, str]]] = {
         _tf("tf_scales", 0, ["size"], target="scales"),
         _tf("tf_one", 0, [], target="one"),
         _tf("tf_minus_one", 1, [], target="offset"),
+        # Grid.transform_vectors, same-grid closed-form path (separate from Grid.transform)
+        (Frag("tv_scale_cube", _GRID, "Grid.transform_vectors", "assign", {"size": "real"}, target="scales", occ=(1, 1), rename=_RN_TF), "real"),
+        (Frag("tv_scale_corners", _GRID, "Grid.transform_vectors", "assign", {"size": "real"}, target="scales", occ=(2, 2), rename=_RN_TF), "real"),
+        (Frag("tv_num_corners", _GRID, "Grid.transform_vectors", "assign", {"size": "real"}, target="num", occ=(0, 1), rename=_RN_TF), "real"),
+        (Frag("tv_grid_to_cube", _GRID, "Grid.transform_vectors", "assign", {"num": "real"}, target="grid_to_cube"), "real"),
+        (Frag("tv_scales_compose", _GRID, "Grid.transform_vectors", "assign", {"scales": "real", "grid_to_cube": "real"}, target="scales", occ=(4, 4)), "real"),
+        (Frag("tv_apply", _GRID, "Grid.transform_vectors", "assign", {"vectors": "real", "scales": "real"}, target="vectors", occ=(2, 2)), "real"),
         # Grid.coords(normalize=True): arange(first, last, step) per axis
         _co("co_ac_step", "spacing", 0, ["n"]),
         _co("co_ac_first", "extrema", 0, [], elt=0),
